@@ -18,6 +18,14 @@ def parsePosition (s : String) : Option Engine.Position :=
     some ⟨v, t, dirOf d, ⟨sv, sn != 0⟩, m, n, ⟨cv, cn != 0⟩, b⟩
   | _ => none
 
+/-- one entry of `qp=`: the engine's answer to `Position{vamm = v, trader = t}`: `v:t:` + the ten fields of the
+    answered record -/
+def parseQueriedPosition (s : String) : Option (Nat × Nat × Engine.Position) :=
+  match (s.splitOn ":").map (·.toNat?) with
+  | [some qv, some qt, some v, some t, some d, some sn, some sv, some m, some n, some cn, some cv, some b] =>
+    some (qv, qt, ⟨v, t, dirOf d, ⟨sv, sn != 0⟩, m, n, ⟨cv, cn != 0⟩, b⟩)
+  | _ => none
+
 def parseCum (s : String) : Option Integer :=
   match (s.splitOn "/").map (·.toNat?) with
   | [some n, some v] => some ⟨v, n != 0⟩
@@ -62,7 +70,7 @@ def parseObs (kv : KV) : Obs :=
       positions := (splitNonEmpty (kv.str "pos") ";").filterMap parsePosition,
       vammMaps := (splitNonEmpty (kv.str "vm") ";").filterMap parseVammMap,
       tmpSwap := none, sentFunds := none, tmpLiq := none }
-  let vamms := [10, 11, 12].filterMap (fun id =>
+  let vamms := [10, 11, 12, 13].filterMap (fun id =>
     let sub := subKV kv s!"v{id}."
     if sub.isEmpty then none else
       let vD := match sub.nat? "dec" with | some d => d | none => D
